@@ -73,7 +73,7 @@ func main() {
 		ID:    "C02",
 		Level: "model_checking",
 		Rule: "bounded exhaustive enumeration of ordered tree pairs: P1 all pairs of trees over names {a,b,c} with per-name state in {absent, file P, file Q, file R} (64 trees, 4096 pairs; P,Q,R unrelated contents of 3 different sizes); " +
-			"P2 all pairs of trees over names {a,b} with per-name state in {absent, file P, file Q, symlink->a, symlink->b, dir{}, dir{c:P}, dir{c:Q}} (64 trees, 4096 pairs); " +
+			"P2 all pairs of trees over names {a,b} with per-name state in {absent, file P, file Q, symlink->a, symlink->b, dir{}, dir{c:P}, dir{c:Q}, dir{c/d:P}} (81 trees, 6561 pairs); " +
 			"P3 the stride slice of C01's block-level family F1 (<=2 files on {a,d/b}, contents = <=2 symbols over 64KiB blocks {A,B} + tail in {none,1,B-1,B-1-prefix-of-A}), each pair with the plain patch and with the optimized patch (rediff, partitions 0 and 2). " +
 			"Each case: real WritePatch -> patcher + overlay bowl onto a copy of the old build with the stage folder outside it; snapshot right before Commit must equal the old build (and nothing may have been rewritten), Commit must return nil, snapshot after Commit must equal the new build (independent Lstat tree oracle, nothing extra). " +
 			"Quick and thorough differ only in the stride of the P3 slice (3533 -> 201 pairs, 353 -> 2004 pairs). " +
